@@ -3,6 +3,7 @@ package main
 import (
 	"fmt"
 	"go/token"
+	"go/types"
 	"strings"
 
 	"golang.org/x/tools/go/ssa"
@@ -55,7 +56,7 @@ func runC11(r *Run) {
 				return ci.Name == "SendCoinsFromAccountToModule" && errHandled(ci.Instr) && isMod(argN(ci.Instr, 2)) && depAmt(argN(ci.Instr, 3), "MsgLiquidate") && backSlice(argN(ci.Instr, 1)).HasField("MsgLiquidate", "LiquidateFrom")
 			}},
 			{"CreateDenom(diffPeriods)", func(ci CallInfo) bool {
-				return ci.Name == "CreateDenom" && errHandled(ci.Instr) && fromSplit(argN(ci.Instr, 3), 1)
+				return ci.Name == "CreateDenom" && errHandled(ci.Instr) && isSplitResultOrCopy(argN(ci.Instr, 3), split, 1)
 			}},
 			{"MintCoins(msg.Amount.Amount of the liquid denom)", func(ci CallInfo) bool {
 				if ci.Name != "MintCoins" || !errHandled(ci.Instr) || !isMod(argN(ci.Instr, 1)) {
@@ -125,12 +126,6 @@ func runC11(r *Run) {
 				}
 			}
 		})
-		fromSplit := func(v ssa.Value, idx int) bool {
-			return split != nil && backSlice(v).Any(func(x ssa.Value) bool {
-				e, ok := x.(*ssa.Extract)
-				return ok && e.Tuple == ssa.Value(split) && e.Index == idx
-			})
-		}
 		evs := []evSpec{
 			{"SendCoinsFromAccountToModule(escrow msg.Amount)", func(ci CallInfo) bool {
 				return ci.Name == "SendCoinsFromAccountToModule" && errHandled(ci.Instr) && isMod(argN(ci.Instr, 2)) && depAmt(argN(ci.Instr, 3), "MsgRedeem") && backSlice(argN(ci.Instr, 1)).HasField("MsgRedeem", "RedeemFrom")
@@ -144,10 +139,7 @@ func runC11(r *Run) {
 				}
 				// the stored remainder is the split's first result itself (not a rewritten copy: period lengths are
 				// relative, so merging or dropping elapsed entries moves every later release)
-				direct := false
-				if e, ok := stripValue(argN(ci.Instr, 2)).(*ssa.Extract); ok && split != nil && e.Tuple == ssa.Value(split) && e.Index == 0 {
-					direct = true
-				}
+				direct := isSplitResultOrCopy(argN(ci.Instr, 2), split, 0)
 				return ci.Name == "UpdateDenomPeriods" && errHandled(ci.Instr) && direct
 			}},
 			{"SendCoinsFromModuleToAccount(original denom, msg.Amount.Amount → redeemTo)", func(ci CallInfo) bool {
@@ -201,10 +193,21 @@ func runC11(r *Run) {
 				return false
 			}
 			all := ci.Instr.Common().Args
+			// the lock-up schedule handed to the vesting keeper is the split's second result itself (not a rewritten
+			// copy: period lengths are relative to the start, so folding or dropping elapsed entries moves every
+			// later release earlier)
 			hasDiff := false
-			for _, a := range all {
-				if fromSplit(a, 1) {
-					hasDiff = true
+			if sig := ci.Instr.Common().Signature(); sig != nil {
+				off := 0
+				if !ci.Instr.Common().IsInvoke() && sig.Recv() != nil {
+					off = 1
+				}
+				for i := 0; i < sig.Params().Len(); i++ {
+					if sig.Params().At(i).Name() == "lockupPeriods" && i+off < len(all) {
+						if isSplitResultOrCopy(all[i+off], split, 1) {
+							hasDiff = true
+						}
+					}
 				}
 			}
 			return hasDiff && backSlice(all...).HasField("MsgRedeem", "RedeemTo")
@@ -419,6 +422,39 @@ func quantityChangingCall(ci CallInfo) bool {
 		"BalanceOf", "GetBalance", "GetAllBalances", "SpendableCoins", "SpendableCoin", "LockedCoins", "GetSupply", "AmountOf", "Find",
 		"CallEVM", "CallEVMWithData", "Unpack", "UnpackIntoInterface", "TotalAmount", "GetLockedUpCoins", "GetVestingCoins", "GetVestedCoins":
 		return true
+	}
+	return false
+}
+
+// isSplitResultOrCopy: v is result idx of the SubtractAmountFromPeriods call itself, or a plain copy of it
+// (append(<empty>, result...)): the schedule is handed on period by period, unmodified.
+func isSplitResultOrCopy(v ssa.Value, split *ssa.Call, idx int) bool {
+	if split == nil {
+		return false
+	}
+	v = stripValue(v)
+	if e, ok := v.(*ssa.Extract); ok {
+		return e.Tuple == ssa.Value(split) && e.Index == idx
+	}
+	if c, ok := v.(*ssa.Call); ok {
+		if b, ok := c.Call.Value.(*ssa.Builtin); ok && b.Name() == "append" && len(c.Call.Args) == 2 {
+			empty := false
+			switch x := stripValue(c.Call.Args[0]).(type) {
+			case *ssa.Const:
+				empty = true
+			case *ssa.Slice:
+				if al, ok := x.X.(*ssa.Alloc); ok {
+					if at, ok := deref(al.Type()).Underlying().(*types.Array); ok && at.Len() == 0 {
+						empty = true
+					}
+				}
+			case *ssa.MakeSlice:
+				if n, ok := constInt(x.Len); ok && n == 0 {
+					empty = true
+				}
+			}
+			return empty && isSplitResultOrCopy(c.Call.Args[1], split, idx)
+		}
 	}
 	return false
 }
